@@ -254,16 +254,21 @@ Fixpoint zindex (n : Z) (l : list Z) : option nat :=
 
 Definition n_all (keys : list key) : list Z := map karg1 (filter is_periph keys).
 
-(* _is_allowed_peripheral(func_current, peripheral_previous, mfl_funcs) *)
+Fixpoint zmax (l : list Z) (d : Z) : Z :=
+  match l with [] => d | x :: tl => Z.max x (zmax tl x) end.
+
+(* _is_allowed_peripheral(func_current, peripheral_previous, mfl_funcs)  (after fix c2f5172):
+     if not n_prev: return n == min(n_all)
+     n_larger = [m for m in n_all if m > max(n_prev)]; return bool(n_larger) and n == min(n_larger) *)
 Definition allowed_peripheral (keys : list key) (cur : key) (prev : list key) : bool :=
   let na := n_all keys in
   let n := karg1 cur in
-  match filter is_periph prev with
+  match map karg1 (filter is_periph prev) with
   | [] => Z.eqb n (zmin na n)
-  | _ :: _ =>
-      match zindex n na with
-      | Some (S i) => Z.ltb (nth i na 0%Z) n
-      | _ => false
+  | (u :: _) as used =>
+      match filter (fun m => Z.ltb (zmax used u) m) na with
+      | [] => false
+      | (x :: _) as larger => Z.eqb n (zmin larger x)
       end
   end.
 
@@ -346,12 +351,12 @@ Definition leaf_set (l : leaf) : list key := snd l.
 Definition has_actions (tbl : combo_table) (keys : list key) (l : leaf) : bool :=
   negb (is_nil (actions tbl keys (snd l))).
 
-(* if len(groups) > 1: every group all of whose members still have actions gets a 'choose_best_model'
-   task (appended to the node list; its members stop being output tasks) *)
+(* if groups (fix e9380e6; it was `if len(groups) > 1`): every group all of whose members still have actions gets a
+   'choose_best_model' task (appended to the node list; its members stop being output tasks) *)
 Definition collect (tbl : combo_table) (keys : list key) (ncoll : nat) (leaves : list leaf)
   : list leaf * list (list pref) :=
   let groups := same_model_groups leaves in
-  if Nat.ltb 1 (length groups) then
+  if negb (is_nil groups) then
     let chosen := filter (forallb (has_actions tbl keys)) groups in
     (filter (fun l => negb (existsb (fun g => same_set (snd l) (snd (hd (PRoot, []) g))) chosen)) leaves
        ++ map (fun ig => (PColl (ncoll + fst ig), snd (hd (PRoot, []) (snd ig)))) (combine (seq 0 (length chosen)) chosen),
@@ -362,44 +367,30 @@ Definition collect (tbl : combo_table) (keys : list key) (ncoll : nat) (leaves :
 Definition new_candidates (tbl : combo_table) (keys : list key) (leaves : list leaf) : list (leaf * key) :=
   flat_map (fun l => map (fun f => (l, f)) (actions tbl keys (snd l))) leaves.
 
-(* the one case in which `if len(groups) > 1` differs from `if groups`: exactly one group, still expandable *)
-Definition single_group (tbl : combo_table) (keys : list key) (leaves : list leaf) : bool :=
-  match same_model_groups leaves with
-  | [g] => forallb (has_actions tbl keys) g
-  | _ => false
-  end.
-
 (* state: output tasks, created candidates (parent task, parent feature set, new feature) in creation
-   order (candidate i is the i-th), collectors (their member tasks), and whether some pass met the
-   single-group case *)
+   order (candidate i is the i-th), collectors (their member tasks) *)
 Fixpoint reduced_loop (tbl : combo_table) (keys : list key) (fuel : nat)
-         (leaves : list leaf) (created : list (pref * list key * key)) (colls : list (list pref)) (single : bool)
-  : list (pref * list key * key) * list (list pref) * bool * bool :=
+         (leaves : list leaf) (created : list (pref * list key * key)) (colls : list (list pref))
+  : list (pref * list key * key) * list (list pref) * bool :=
   match fuel with
-  | 0 => (created, colls, false, single)
+  | 0 => (created, colls, false)
   | S f =>
-      let single' := single || single_group tbl keys leaves in
       let '(leaves1, newcolls) := collect tbl keys (length colls) leaves in
       let news := new_candidates tbl keys leaves1 in
       match news with
-      | [] => (created, colls ++ newcolls, true, single')
+      | [] => (created, colls ++ newcolls, true)
       | _ =>
           let numbered := combine (seq (S (length created)) (length news)) news in
           reduced_loop tbl keys f
             (filter (fun l => negb (has_actions tbl keys l)) leaves1
                ++ map (fun x => (PCand (fst x), snd (fst (snd x)) ++ [snd (snd x)])) numbered)
             (created ++ map (fun x => (fst (fst x), snd (fst x), snd x)) news)
-            (colls ++ newcolls) single'
+            (colls ++ newcolls)
       end
   end.
 Definition reduced_stepwise (tbl : combo_table) (keys : list key)
-  : list (pref * list key * key) * list (list pref) * bool * bool :=
-  reduced_loop tbl keys (S (length keys)) [(PRoot, [])] [] [] false.
-(* guard: no pass of reduced_stepwise meets exactly one expandable same-feature group *)
-Definition g_reduced_groups (tbl : combo_table) (keys : list key) : bool :=
-  negb (snd (reduced_stepwise tbl keys)).
-(* guard: at most two peripheral-compartment features in the search space *)
-Definition g_periph (keys : list key) : bool := Nat.leb (length (filter is_periph keys)) 2.
+  : list (pref * list key * key) * list (list pref) * bool :=
+  reduced_loop tbl keys (S (length keys)) [(PRoot, [])] [] [].
 
 (* ------------------------------------------------------------------------------------------ *)
 (* iivsearch/algorithms.py: the brute-force candidate lists.
@@ -430,16 +421,8 @@ End IivSearch.
 Arguments is_rv_block_structure {A}. Arguments block_structure_candidates {A}. Arguments no_of_etas_candidates {A}.
 
 (* ------------------------------------------------------------------------------------------ *)
-(* exhaustive(): `funcs = set(mfl_funcs[feat] for feat in combo)` and create_candidate_exhaustive's
-   `for feat, func in zip(combo, funcs)`.  The iteration order of a Python set of function objects is
-   unspecified (address based): it is a parameter `order` of the model (any rearrangement).  Function
-   objects are identified with the key they belong to. *)
-Definition exhaustive_pairs {K C : Type} (cat : K -> C) (ceqb : C -> C -> bool) (order : list K -> list K)
-           (keys : list K) : list (list (K * K)) :=
-  map (fun combo => combine combo (order combo)) (all_combinations cat ceqb keys).
-(* guard: the search space has features of one category only (every combination is a single feature) *)
-Fixpoint all_same_cat {K C : Type} (cat : K -> C) (ceqb : C -> C -> bool) (keys : list K) : bool :=
-  match keys with
-  | a :: ((b :: _) as tl) => ceqb (cat a) (cat b) && all_same_cat cat ceqb tl
-  | _ => true
-  end.
+(* exhaustive(): `funcs = [mfl_funcs[feat] for feat in combo]` (fix 16091ea; it was a set, whose iteration order
+   is unspecified) and create_candidate_exhaustive's `for feat, func in zip(combo, funcs)`.  Function objects are
+   identified with the key they belong to. *)
+Definition exhaustive_pairs {K C : Type} (cat : K -> C) (ceqb : C -> C -> bool) (keys : list K) : list (list (K * K)) :=
+  map (fun combo => combine combo combo) (all_combinations cat ceqb keys).
